@@ -168,6 +168,27 @@ fn socketpair(blocking: bool) -> (c_int, c_int) {
     (fds[0], fds[1])
 }
 
+/// The epoll descriptors of this process that hold `fd` in their interest list, with the event mask (from /proc/self/fdinfo).
+fn epoll_interest(fd: c_int) -> Vec<(i32, u32)> {
+    let mut v = Vec::new();
+    for e in std::fs::read_dir("/proc/self/fd").unwrap().flatten() {
+        let n: i32 = e.file_name().to_string_lossy().parse().unwrap_or(-1);
+        let link = std::fs::read_link(e.path()).map(|p| p.to_string_lossy().into_owned()).unwrap_or_default();
+        if link.contains("eventpoll") {
+            let info = std::fs::read_to_string(format!("/proc/self/fdinfo/{n}")).unwrap_or_default();
+            for l in info.lines().filter(|l| l.starts_with("tfd:")) {
+                let w: Vec<&str> = l.split_whitespace().collect();
+                if w.get(1) == Some(&fd.to_string().as_str()) {
+                    let mask = w.get(3).and_then(|m| u32::from_str_radix(m, 16).ok()).unwrap_or(0);
+                    v.push((n, mask));
+                }
+            }
+        }
+    }
+    v.sort_unstable();
+    v
+}
+
 fn main() {
     let args: Vec<String> = std::env::args().collect();
     let case = args.get(1).map(String::as_str).unwrap_or("");
@@ -361,8 +382,17 @@ fn main() {
                         };
                         out.push_str(&format!("{{\"op\": \"{op}\", \"applied\": {got}, \"kernel\": {want}}}"));
                     }
-                    b'c' => {
-                        let r = syscall::close(None, fd);
+                    k @ (b'c' | b'C') => {
+                        // 'C': the kernel releases the descriptor but reports -1/EINTR (Linux does release it in that case)
+                        extern "C" fn close_eintr(fd: c_int) -> c_int {
+                            unsafe {
+                                libc::close(fd);
+                                *libc::__errno_location() = libc::EINTR;
+                            }
+                            -1
+                        }
+                        let f: extern "C" fn(c_int) -> c_int = close_eintr;
+                        let r = if k == b'c' { syscall::close(None, fd) } else { syscall::close(Some(&f), fd) };
                         unsafe { libc::close(peers[slot]); }
                         let (n, pn) = socketpair(true);
                         fds[slot] = n;
@@ -504,6 +534,99 @@ fn main() {
                 }
             }
             println!("{{\"trials\": [{}]}}", results.join(","));
+        }
+        // interest_step <none|read|write|both> <delivered 0|1> <op>: one socket X on the single event loop. The state is built
+        // with real waits (X is not readable and its send buffer is full, so the 5 ms waits time out and the interests stay
+        // registered); with delivered=1 X is then made ready and the event is delivered through select (which consumes the
+        // waiting-token records but not the interests). Then ONE operation: wait_read | wait_write | del_both | del_read |
+        // del_write | close (runtime drops interest, kernel closes) | hooked_close | event. Prints the epoll interest mask of
+        // X's number afterwards and the mask expected from the outstanding interests; after a close the number is reused by a
+        // new socket that waits for read readiness (expected: read interest only).
+        "interest_step" => {
+            use open_coroutine_core::net::EventLoops;
+            use std::time::Duration;
+            init_event_loops();
+            let (state, delivered, op) = (args[2].as_str(), num(3) != 0, args[4].as_str());
+            let (x, peer) = socketpair(true);
+            unsafe {
+                let fl = libc::fcntl(x, libc::F_GETFL);
+                libc::fcntl(x, libc::F_SETFL, fl | libc::O_NONBLOCK);
+                let chunk = [0u8; 4096];
+                while libc::write(x, chunk.as_ptr().cast(), chunk.len()) > 0 {}
+                let fl = libc::fcntl(peer, libc::F_GETFL);
+                libc::fcntl(peer, libc::F_SETFL, fl | libc::O_NONBLOCK);
+            }
+            let short = Some(Duration::from_millis(5));
+            let (mut r, mut w) = (state == "read" || state == "both", state == "write" || state == "both");
+            if r { EventLoops::wait_read_event(x, short).expect("wait read"); }
+            if w { EventLoops::wait_write_event(x, short).expect("wait write"); }
+            let make_ready = |rd: bool, wr: bool| unsafe {
+                if rd { assert_eq!(1, libc::write(peer, [7u8].as_ptr().cast(), 1)); }
+                if wr { let mut b = [0u8; 65536]; while libc::read(peer, b.as_mut_ptr().cast(), b.len()) > 0 {} }
+            };
+            if delivered && (r || w) {
+                make_ready(r, w);
+                EventLoops::wait_event(Some(Duration::from_millis(20))).expect("wait_event");
+            }
+            let mut closed = false;
+            let mut op_err = String::new();
+            let mut note = |res: std::io::Result<()>| if let Err(e) = res { op_err = format!("{e}"); };
+            match op {
+                "wait_read" => { note(EventLoops::wait_read_event(x, short)); r = true; }
+                "wait_write" => { note(EventLoops::wait_write_event(x, short)); w = true; }
+                "del_both" => { note(EventLoops::del_event(x)); r = false; w = false; }
+                "del_read" => { note(EventLoops::del_read_event(x)); r = false; }
+                "del_write" => { note(EventLoops::del_write_event(x)); w = false; }
+                "close" => { note(EventLoops::del_event(x)); unsafe { libc::close(x); } closed = true; }
+                "hooked_close" => { assert_eq!(0, syscall::close(None, x)); closed = true; }
+                "event" => { make_ready(true, true); note(EventLoops::wait_event(Some(Duration::from_millis(20)))); }
+                _ => panic!("bad op {op}"),
+            }
+            let (fd, want) = if closed {
+                unsafe { libc::close(peer); }
+                let (nx, _np) = socketpair(true);
+                if let Err(e) = EventLoops::wait_read_event(nx, short) { op_err = format!("wait on the reused number: {e}"); }
+                (nx, 0x1u32)
+            } else {
+                (x, (r as u32) | ((w as u32) << 2))
+            };
+            let interest = epoll_interest(fd);
+            let got = interest.iter().fold(0u32, |a, (_, m)| a | (m & 0x5));
+            println!("{{\"state\": \"{state}\", \"delivered\": {delivered}, \"op\": \"{op}\", \"old_fd\": {x}, \"fd\": {fd}, \"reused_same_number\": {}, \"op_error\": \"{op_err}\", \"expected_mask\": {want}, \"os_mask\": {got}}}", !closed || fd == x);
+            std::process::exit(0);
+        }
+        // interest_refused <r|w>: a wait on a regular file (epoll refuses it with EPERM) fails; the number is closed through the
+        // hook and reused by a socket (dup2); a wait on the socket must then register it with the epoll instance.
+        "interest_refused" => {
+            use open_coroutine_core::net::EventLoops;
+            use std::os::fd::IntoRawFd;
+            use std::time::Duration;
+            init_event_loops();
+            let write = args[2] == "w";
+            let path = format!("/tmp/ocv-replay-regular-{}", std::process::id());
+            let f = std::fs::File::create(&path).expect("create").into_raw_fd();
+            _ = std::fs::remove_file(&path);
+            let wait = |fd: c_int, ms: u64| if write { EventLoops::wait_write_event(fd, Some(Duration::from_millis(ms))) } else { EventLoops::wait_read_event(fd, Some(Duration::from_millis(ms))) };
+            let first_failed = wait(f, 10).is_err();
+            let close_ret = syscall::close(None, f);
+            let (s, _peer) = socketpair(true);
+            // fill the send buffer so that a write wait does not complete at once
+            if write {
+                unsafe {
+                    let fl = libc::fcntl(s, libc::F_GETFL);
+                    libc::fcntl(s, libc::F_SETFL, fl | libc::O_NONBLOCK);
+                    let chunk = [0u8; 4096];
+                    while libc::write(s, chunk.as_ptr().cast(), chunk.len()) > 0 {}
+                }
+            }
+            assert_eq!(f, unsafe { libc::dup2(s, f) });
+            let second_ok = wait(f, 20).is_ok();
+            let interest = epoll_interest(f);
+            let want: u32 = if write { 0x4 } else { 0x1 };
+            let registered = interest.iter().any(|(_, m)| m & want != 0);
+            println!("{{\"first_wait_failed\": {first_failed}, \"close_ret\": {close_ret}, \"second_wait_ok\": {second_ok}, \"fd\": {f}, \"epoll_interest\": {:?}, \"registered\": {registered}}}",
+                interest.iter().map(|(e, m)| format!("{e}:{m:x}")).collect::<Vec<_>>());
+            std::process::exit(0);
         }
         // ws_seq <0|1> <pre>: sequential bookkeeping of the plain work-steal queue.
         //  0: the local pop whose tick is a multiple of 61 takes the oldest shared item; afterwards the shared queue's reported
